@@ -242,7 +242,10 @@ def check_nprior(ctx):
     ctx.check(R, H, "likelihood helper forwards both row selectors to run_worker", okh, "run_worker is not given n_prior_samples / samples_idx unchanged", key="helper")
     # results concatenated in task order
     rets = [s for s in A.walk_local(H) if isinstance(s, ast.Return)]
-    okc = bool(rets) and all(isinstance(s.value, ast.Call) and (A.call_name(s.value) or "").endswith("concatenate") and canon(s.value.args[0]) == "results" for s in rets)
+    okc = bool(rets)
+    for s in rets:
+        v = A.inline_temporaries(s.value, s, H)
+        okc = okc and isinstance(v, ast.Call) and (A.call_name(v) or "").endswith("concatenate") and len(v.args) >= 1 and isinstance(v.args[0], ast.Call) and A.call_name(v.args[0]) == "run_worker"
     ctx.check(R, H, "likelihoods concatenated in task order", okc, "marginal_ln_likelihood_helper does not return np.concatenate(results)", key="concat")
 
 
